@@ -444,8 +444,62 @@ func execModelCase(c *Case) []ModeResult {
 		}
 		history = append(history, h)
 	}
+	if len(mc.Calls) > 0 && len(mc.Calls[0].Reuse) == 0 && skipsAnInput(mc.Model) {
+		res = append(res, strayEmptyName(c, &mc, bytesModel)...)
+	}
 	if len(res) == 0 {
 		res = append(res, ModeResult{"load", "pass", ""})
+	}
+	return res
+}
+
+func skipsAnInput(m mModel) bool {
+	for _, n := range m.Nodes {
+		for _, in := range n.Ins {
+			if in == "" {
+				return true
+			}
+		}
+	}
+	return false
+}
+
+// strayEmptyName: an empty input name of a node means "this optional input is absent" (RunSem!GatherVals), whatever else is around
+// under that name - a stray entry "" in the caller's feed, or an initializer that carries no name. The first call is repeated on
+// fresh models with each of the two, and is held to the outcome the specification gives for the first call.
+func strayEmptyName(c *Case, mc *mCase, bytesModel []byte) []ModeResult {
+	call := mc.Calls[0]
+	mkFeed := func() (gonnx.Tensors, error) {
+		feed := gonnx.Tensors{}
+		for name, at := range call.Ins {
+			t, err := MkTensor(at)
+			if err != nil {
+				return nil, err
+			}
+			feed[name] = t
+		}
+		return feed, nil
+	}
+	var res []ModeResult
+	cc := &Case{Allowed: call.Allowed, Cmp: c.Cmp}
+	if feed, err := mkFeed(); err == nil {
+		if fresh, err := gonnx.NewModelFromBytes(bytesModel); err == nil {
+			feed[""] = tensor.New(tensor.WithShape(1), tensor.WithBacking([]float32{100}))
+			obs := runCall(fresh, mc.Model.Outputs, feed)
+			res = append(res, ModeResult{"call1:stray-empty-name-in-feed", Verdict(cc, obs), obs.Short()})
+		}
+	}
+	mp := &onnx.ModelProto{}
+	if err := proto.Unmarshal(bytesModel, mp); err == nil && mp.Graph != nil {
+		mp.Graph.Initializer = append(mp.Graph.Initializer, &onnx.TensorProto{DataType: int32(onnx.TensorProto_FLOAT), Dims: []int64{1}, FloatData: []float32{100}})
+		if b, err := proto.Marshal(mp); err == nil {
+			if feed, err := mkFeed(); err == nil {
+				if fresh, err := gonnx.NewModelFromBytes(b); err == nil {
+					obs := runCall(fresh, mc.Model.Outputs, feed)
+					res = append(res, ModeResult{"call1:unnamed-initializer", Verdict(cc, obs), obs.Short()})
+				} // (a loader that refuses an initializer without a name is within its rights: nothing to decide then)
+			}
+		}
 	}
 	return res
 }
